@@ -4,11 +4,13 @@ pub mod c01;
 pub mod c02;
 pub mod c04;
 pub mod c05;
+pub mod c06;
 pub mod c09;
 pub mod c03;
 pub mod c08;
 pub mod c11;
 pub mod c12;
+pub mod c13;
 pub mod c14;
 pub mod c15;
 pub mod c16;
@@ -21,6 +23,8 @@ pub fn run(id: &str, ctx: &mut Ctx) -> bool {
         "C02" => c02::run(ctx),
         "C04" => c04::run(ctx),
         "C05" => c05::run(ctx),
+        "C06" => c06::run(ctx),
+        "C13" => c13::run(ctx),
         "C09" => c09::run(ctx),
         "C03" => c03::run(ctx),
         "C08" => c08::run(ctx),
